@@ -149,7 +149,9 @@ def State.freeBlk (st : State) (b : Nat) : State :=
 def SrcRef.loc (st : State) : SrcRef → Option (Option Loc)
   | .ext _ => some (some .ext)
   | .inplace _ => some none
-  | .item c j f => (st.nodes c).items[j]?.map fun it => some (.heap it.b it.i f)
+  | .item c j f =>
+    -- a reference to a member the item type does not have is ill-formed (not executable)
+    if f ∈ c.k.fields then (st.nodes c).items[j]?.map fun it => some (.heap it.b it.i f) else none
   | .elem a j =>
     match (st.arrs a).store with
     | some s => if j < (st.arrs a).size then some (some (.heap s j 1)) else none
@@ -215,30 +217,34 @@ def countWhile (st : State) (pr : Nat → Bool) : List Item → Nat
     | some k => if pr k then countWhile st pr rest + 1 else 0
     | none => 0
 
-/-- `freeItem` handling of the insert functions: returns the state, the slot and the new free list -/
-def takeSlot (st : State) (k : Kind) (n : Node) : State × Item × List Item × List Nat :=
-  match n.free with
-  | it :: rest => (st, it, rest, n.blocks)
-  | [] =>
-    let b := st.next
-    let st := st.alloc 4
-    if k.hashOrder then (st, ⟨b, 0⟩, [⟨b, 3⟩, ⟨b, 2⟩, ⟨b, 1⟩], b :: n.blocks)
-    else (st, ⟨b, 3⟩, [⟨b, 2⟩, ⟨b, 1⟩, ⟨b, 0⟩], b :: n.blocks)
-
 def insertAt {α : Type} (l : List α) (pos : Nat) (x : α) : List α := l.take pos ++ x :: l.drop pos
+
+/-- `if(!data) data = new Item*[capacity]` of the hash containers -/
+def allocData (st : State) (c : Var) : State :=
+  (st.alloc 0).setNode c { st.nodes c with data := some st.next }
+
+/-- the free list threaded through a new block: HashMap/HashSet take slot 0 and push 1,2,3;
+    the others push 0..3 and pop 3 -/
+def newSlots (k : Kind) (b : Nat) : List Item :=
+  if k.hashOrder then [⟨b, 0⟩, ⟨b, 3⟩, ⟨b, 2⟩, ⟨b, 1⟩] else [⟨b, 3⟩, ⟨b, 2⟩, ⟨b, 1⟩, ⟨b, 0⟩]
+
+/-- `if(!freeItem)`: a new block of four items -/
+def allocBlock (st : State) (c : Var) : State :=
+  (st.alloc 4).setNode c { st.nodes c with free := newSlots c.k st.next, blocks := st.next :: (st.nodes c).blocks }
+
+/-- pop the head of the free list, construct the members there, link the item at position pos -/
+def useSlot (st : State) (c : Var) (pos : Nat) (it : Item) (rest : List Item)
+    (srcs : List (Nat × Option Loc × Option Nat)) : State :=
+  (st.ctorList (srcs.map fun (f, src, p) => (it.loc f, src, p))).setNode c
+    { st.nodes c with items := insertAt (st.nodes c).items pos it, free := rest }
 
 /-- link a new item at position pos: allocate the hash table if needed, take a slot, construct -/
 def insertNew (st : State) (c : Var) (pos : Nat) (srcs : List (Nat × Option Loc × Option Nat)) : State :=
-  let n := st.nodes c
-  let (st, data) :=
-    if c.k.isHash then
-      match n.data with
-      | some d => (st, some d)
-      | none => (st.alloc 0, some st.next)
-    else (st, n.data)
-  let (st, it, free, blocks) := takeSlot st c.k n
-  let st := st.ctorList (srcs.map fun (f, src, p) => (it.loc f, src, p))
-  st.setNode c { n with items := insertAt n.items pos it, free := free, blocks := blocks, data := data }
+  let st := if c.k.isHash && (st.nodes c).data.isNone then allocData st c else st
+  let st := if (st.nodes c).free.isEmpty then allocBlock st c else st
+  match (st.nodes c).free with
+  | it :: rest => useSlot st c pos it rest srcs
+  | [] => st
 
 def removeAt (st : State) (c : Var) (j : Nat) (it : Item) : State :=
   let n := st.nodes c
@@ -256,6 +262,37 @@ def fieldSrcs (kd : Kind) (k v : Option (Option Loc × Option Nat)) : Option (Li
     match (if f = 0 then k else v) with
     | some (l, p) => some (f, l, p)
     | none => none
+
+def resolveOpt (st : State) : Option SrcRef → Option (Option (Option Loc × Option Nat))
+  | some r => (resolve st r).map some
+  | none => some none
+
+/-- `*it = value` on an existing item -/
+def putAssign (st : State) (it : Item) : Option (Option Loc × Option Nat) → Option State
+  | some (some vl, vp) => some (st.assign (it.loc 1) vl vp)
+  | _ => none
+
+/-- insert-or-assign with resolved operands: Map / HashMap overwrite the value of an existing key,
+    HashSet / PoolMap leave the existing item alone, MultiMap always inserts (after the equal keys),
+    Map inserts at the sorted position, the hash containers and the lists at the given position -/
+def putResolved (st : State) (c : Var) (p : Nat) (kr vr : Option (Option Loc × Option Nat))
+    (srcs : List (Nat × Option Loc × Option Nat)) : Option State :=
+  let n := st.nodes c
+  if c.k.hasKey then
+    match kr with
+    | some (_, some kp) =>
+      if c.k = .U then some (insertNew st c (countWhile st (fun x => x ≤ kp) n.items) srcs)
+      else
+        match findField st 0 kp n.items with
+        | some j =>
+          if c.k = .M ∨ c.k = .H then
+            match n.items[j]? with
+            | some it => putAssign st it vr
+            | none => none
+          else some st
+        | none => some (insertNew st c (if c.k = .M then countWhile st (fun x => x < kp) n.items else p) srcs)
+    | _ => none
+  else some (insertNew st c p srcs)
 
 def reserveCopy (st : State) (ob nb : Nat) : List Nat → State
   | [] => st
@@ -284,40 +321,22 @@ def Micro.valid : Micro → Bool
 /-- execution of one micro step; `none` = the step is not executable in this state
     (index outside the container: undefined behaviour in C++, never produced by `compile`) -/
 def exec' (st : State) : Micro → Option State
-  | .put c pos k v => do
+  | .put c pos k v =>
     let n := st.nodes c
-    if !n.alive then none
-    let kr ← match k with | some r => (resolve st r).map some | none => some none
-    let vr ← match v with | some r => (resolve st r).map some | none => some none
-    let srcs ← fieldSrcs c.k kr vr
-    let endPos := n.items.length
-    let p := pos.getD endPos
-    if p > endPos then none
-    if c.k.hasKey then
-      let (_, kp) ← kr
-      let kp ← kp
-      match c.k with
-      | .U => some (insertNew st c (countWhile st (fun x => x ≤ kp) n.items) srcs)
-      | .M =>
-        match findField st 0 kp n.items with
-        | some j =>
-          let it ← n.items[j]?
-          let (vl, vp) ← vr
-          let vl ← vl
-          some (st.assign (it.loc 1) vl vp)
-        | none => some (insertNew st c (countWhile st (fun x => x < kp) n.items) srcs)
-      | _ =>
-        match findField st 0 kp n.items with
-        | some j =>
-          if c.k = .H then
-            let it ← n.items[j]?
-            let (vl, vp) ← vr
-            let vl ← vl
-            some (st.assign (it.loc 1) vl vp)
-          else some st
-        | none => some (insertNew st c p srcs)
-    else some (insertNew st c p srcs)
+    if !n.alive then none else
+    match resolveOpt st k with
+    | none => none
+    | some kr =>
+      match resolveOpt st v with
+      | none => none
+      | some vr =>
+        match fieldSrcs c.k kr vr with
+        | none => none
+        | some srcs =>
+          if pos.getD n.items.length > n.items.length then none
+          else putResolved st c (pos.getD n.items.length) kr vr srcs
   | .assignVal c j src => do
+    if 1 ∉ c.k.fields then none     -- the items of this kind have no value member
     let it ← (st.nodes c).items[j]?
     let (l, p) ← resolve st src
     let l ← l
